@@ -132,6 +132,9 @@ def execute(pl, res):
                             break
                         D = pol.served
                         res.transitions += 1
+                        if pol.bypassed:
+                            res.seam_bypassed += 1          # the channel names its own torch.Generator: the answer-vector clauses cannot be driven
+                            continue
                         if D > 12:
                             v("private-draw", f"{D} draws consumed for {Ll} symbols")
                             break
@@ -252,6 +255,19 @@ def long_case(pl, res):
             elif 0 < p < 1 and pol.served >= n and abs(nc - p * ne) > 2 + 4e-3 * ne * (1 if ne < n else 0):
                 # every symbol owns one of the n equally spaced draws; restricted to a subset (Z channel, bipolar erasure) the count is a sub-grid count
                 v("rate", f"{nc} of {ne} eligible symbols changed, p*eligible = {p * ne:.1f} (draws are the {n}-point quantile grid)")
+    # without the seam: every call consumes fresh randomness (two calls without reseeding give different patterns, also on a fresh object; the
+    # same seed replays the pattern).  512 eligible symbols at p=0.5: two honest patterns coincide with probability 2^-512
+    xs = torch.full((512,), float(hi))
+    c1 = make(ch, 0.5, None)
+    torch.manual_seed(99)
+    y1, y2, y3 = c1(xs), c1(xs), make(ch, 0.5, None)(xs)
+    torch.manual_seed(99)
+    y4 = c1(xs)
+    res.ev(3, nontrivial=3, transitions=4)
+    if torch.equal(y1, y2) or torch.equal(y1, y3):
+        res.viol(ch, f"p=0.5,{alpha},repeated calls", "private-draw", "two calls without reseeding produced the identical pattern on 512 symbols (same object: %s, fresh object: %s)" % (torch.equal(y1, y2), torch.equal(y1, y3)))
+    if not torch.equal(y1, y4):
+        res.viol(ch, f"p=0.5,{alpha},repeated calls", "private-draw", "the same seed does not replay the same pattern")
     res.sample({"channel": ch, "alphabet": alpha, "N": N})
 
 
